@@ -62,7 +62,7 @@ def natOfInt (i : Int) : R Nat := if i < 0 then .error .panic else .ok i.toNat
 def pageData (dc : Decomp) (s : Src) (ph : PHdr) (codec : Int) : R (Bytes × Src) :=
   if codec = 1 then do
     let n ← natOfInt ph.compressed
-    let (b, s) ← s.readSome n
+    let (b, s) ← s.readExactly n        -- io.ReadFull
     match dc.snappy b with
     | some d => .ok (d, s)
     | none => .error .err
@@ -74,7 +74,7 @@ def pageData (dc : Decomp) (s : Src) (ph : PHdr) (codec : Int) : R (Bytes × Src
     | none => .error .err
   else if codec = 0 then do
     let n ← natOfInt ph.uncompressed
-    s.readSome n
+    s.readExactly n                      -- io.ReadFull
   else .error .err
 
 def numValuesOf (ph : PHdr) : R Int :=
@@ -251,6 +251,8 @@ def RState.readRowGroup (st : RState) : R RState :=
 def openReader (cols : List Col) (dc : Decomp) (file : Bytes) : R RState :=
   -- getMetaDataSize: Seek(-8, End) fails before the start; binary.Read needs 4 bytes
   if file.length < 8 then .error .err else
+  -- the trailing magic is checked before the footer length is trusted
+  if file.drop (file.length - 4) ≠ [80, 65, 82, 49] then .error .err else
   let size := fromLE ((file.drop (file.length - 8)).take 4)
   if size + 8 > file.length then .error .err else   -- Seek to a negative position
   match ({ data := file, pos := file.length - (size + 8) } : Src).readStruct with
